@@ -291,6 +291,21 @@ for _cid, _m in {
     "C17": {"resumptions_through_authorize": 2000},
 }.items():
     EXTRA_MIN.setdefault(_cid, {}).update(_m)
+# round 11
+for _cid, _m in {
+    "C01": {"full_window_sessions": 50, "pubrels_written_at_full_window": 10, "requests_at_full_window": 300},
+    "C05": {"acks_with_property_section_over_110_bytes": 1000},
+    "C06": {"publishes_built_with_every_setter_called_twice": 50000},
+    "C07": {"inbound_pubrel_with_reason_0x92": 10000},
+    "C08": {"inbound_pubrel_with_reason_0x92": 1000},
+    "C09": {"inbound_pubrel_with_reason_0x92": 10000},
+    "C10": {"run_given_up_while_resending_cases": 100},
+    "C11": {"failed_exchange_wrap_resume_cases": 40, "identifiers_reused_after_a_failed_exchange": 40, "real_wraps_after_a_failed_exchange": 1},
+    "C12": {"largest_packets_written_in_full": 1},
+    "C13": {"refusing_connacks_with_subscription_identifiers_unavailable": 40},
+    "C17": {"resent_publishes_with_retain_and_properties": 1000},
+}.items():
+    EXTRA_MIN.setdefault(_cid, {}).update(_m)
 for _cid, _m in EXTRA_MIN.items():
     for _tier in ("quick", "thorough"):
         CHECKS[_cid]["min_observed"].setdefault(_tier, {})
